@@ -1,17 +1,25 @@
-(* C16 — any input text leads to a result or a reported error, never a crash (PARTIAL).
-   Statements only.  This file collects the panic-freedom statements that exist about the model so
-   far, and pins each KNOWN crash of the implementation to a decidable class of inputs:
-     F3a  a numeral / arity token whose value does not fit isize / usize     (parse time)
-     F11  a variable V<n> of the program with n + i > usize::MAX             (tau-star, debug build)
-   (F3b, the numeral isize::MIN rendered to TPTP in a debug build, is repaired in /repo: the
-   rendering of numerals is now total, C16_tptp_numeral_total.)
-   Outside the model (exercised only by the malformed-input stream of props/C16.py): the pest
-   engine and grammar, clap, I/O, stack depth, termination.
-   After the merge with branch `subst`: C17_total and C17_panic_only_on_sort_mismatch (Proofs/
-   SubstOk.v) are the statements "substitute never panics on sort-compatible input"; they are not
-   restated here because Proofs/SubstOk.v is not on this branch (see docs/C16.md). *)
+(* C16 — any input text leads to a result or a reported error, never a crash.
+   WHAT THIS FILE IS (audit A10): NOT a proof of the property.  Crash-freedom of the binary is
+   explored by sampling (the malformed-input stream of props/C16.py; pest, clap, I/O, recursion
+   depth and running time are outside every model), and the property is known to be FALSE on the
+   recorded classes F3a and F11.  The Coq part proves
+     (1) EXACT PANIC CONDITIONS of the numeric conversions: each known crash of the implementation
+         is pinned to a decidable class of inputs
+           F3a  a numeral / arity token whose value does not fit isize / usize     (parse time)
+           F11  a variable V<n> of the program with n + i > usize::MAX             (tau-star, debug build)
+         (F3b, the numeral isize::MIN rendered to TPTP in a debug build, is repaired in /repo; the
+         model of that line is now the numeral case of the TPTP printer: C16_tptp_numeral_is_printer);
+     (2) TOTALITY OF NAMED SEARCHES AND PARTIAL OPERATIONS the pipeline unwraps: the fresh-name
+         search, Formula::substitute (panics exactly on a sort mismatch), completion of a tau*
+         theory (the `expect("tau_star did not create a completable theory")`), and the CLASSIC
+         rewrites on parser-image trees (C16_classic_portfolio_no_panic, from Proofs/ParserImage.v).
+   Statements that only restated the shape of a result type (C16_status_total,
+   C16_tptp_numeral_total, C16_tptp_numeral_never_panics) were removed; the exact classification of
+   the prover's output is C10_status_ok / C10_status_missing / C10_status_unknown (Properties/C10.v). *)
 From Coq Require Import List Ascii String ZArith NArith.
-From Anthem Require Import Base.Fresh Model.Limits Proofs.LimitsOk Model.Prover Proofs.ProverOk.
+From Anthem Require Import Base.Fresh Syntax.Fol Syntax.Asp Syntax.Tff Model.Limits Proofs.LimitsOk Model.Subst Proofs.SubstOk
+  Model.TptpPrint Model.TauStar Model.Completion Proofs.FagesTauStar
+  Model.StrategyCls Model.ClsTerm Proofs.SimplClassicTotal Proofs.ParserImage.
 Open Scope string_scope.
 
 (* fresh-name searches (`while taken.contains(..)`, `find(..).unwrap()`) never run out: with fuel
@@ -20,13 +28,6 @@ Theorem C16_fresh_total : forall (variant : string) (taken : list string) (m : N
   exists c, find_fresh (List.length taken) variant taken m = Some c.
 Proof. exact find_fresh_total. Qed.
 Print Assumptions C16_fresh_total.
-
-(* reading the prover's output is total: one of the three answers for every byte string *)
-Theorem C16_status_total : forall s : string,
-  (exists st, status_of_stdout s = SOk st) \/ status_of_stdout s = SMissing \/
-  (exists w, status_of_stdout s = SUnknown w).
-Proof. exact status_of_stdout_total. Qed.
-Print Assumptions C16_status_total.
 
 (* F3a *)
 Theorem C16_numeral_panics_iff_out_of_range_nonneg : forall (ds : string) (n : N),
@@ -43,21 +44,49 @@ Theorem C16_arity_panics_iff_out_of_range : forall (ds : string) (n : N),
 Proof. exact parse_usize_panic_iff. Qed.
 Print Assumptions C16_arity_panics_iff_out_of_range.
 
-(* F3b (repaired): the TPTP rendering of a numeral never panics; it is the decimal magnitude,
-   wrapped in $uminus(..) for negative numerals *)
-Theorem C16_tptp_numeral_total : forall n : Z,
-  tptp_numeral n = Value (if (n <? 0)%Z then "$uminus(" ++ nat_str (Z.abs_N n) ++ ")" else nat_str (Z.abs_N n)).
-Proof. exact tptp_numeral_total. Qed.
-Print Assumptions C16_tptp_numeral_total.
-Theorem C16_tptp_numeral_never_panics : forall n : Z, tptp_numeral n <> Panic.
-Proof. exact tptp_numeral_never_panics. Qed.
-Print Assumptions C16_tptp_numeral_never_panics.
+(* F3b (repaired).  Model/Limits.tptp_numeral (the model the boundary correspondence op
+   `tptp_numeral` runs) and the numeral case of the TPTP printer Model/TptpPrint.print_iterm (the
+   model C06/C09 are about) are two transcriptions of the same Rust line
+   (`let m = n.unsigned_abs()` in Format<IntegerTerm>): they agree, for isize::MIN in particular *)
+Theorem C16_tptp_numeral_is_printer : forall n : Z,
+  tptp_numeral n = Value (render (print_iterm (INum n))).
+Proof.
+  intros n. unfold tptp_numeral. cbn [print_iterm]. destruct (n <? 0)%Z; reflexivity.
+Qed.
+Print Assumptions C16_tptp_numeral_is_printer.
 
 (* F11 *)
 Theorem C16_fresh_global_panics_iff_overflow : forall m i : N,
   fresh_global m i = Panic <-> (usize_max < m + i)%N.
 Proof. exact fresh_global_panic_iff. Qed.
 Print Assumptions C16_fresh_global_panics_iff_overflow.
+
+(* Formula::substitute (the two `panic!`s of GeneralTerm::substitute): a value on every
+   sort-compatible argument, and a panic ONLY on a sort mismatch (C17) *)
+Theorem C16_substitute_total : forall F x t, sort_ok x t = true -> exists G, substitute F x t = Some G.
+Proof. exact substitute_total. Qed.
+Print Assumptions C16_substitute_total.
+Theorem C16_substitute_panics_only_on_sort_mismatch : forall F x t,
+  substitute F x t = None -> sort_ok x t = false.
+Proof. exact substitute_panics_only_on_sort_mismatch. Qed.
+Print Assumptions C16_substitute_panics_only_on_sort_mismatch.
+
+(* `.completion(inputs).expect("tau_star did not create a completable theory")`: never None on a
+   tau* theory, whatever the input set (C04_tau_star_completable) *)
+Theorem C16_completion_expect_unreachable : forall (P : program) (G : theory) (ins : list pred),
+  tau_star P = Some G -> exists D, completion G ins = Some D.
+Proof. exact C04_tau_star_completable_proof. Qed.
+Print Assumptions C16_completion_expect_unreachable.
+
+(* the panics of classic.rs (`guards[0]`, `chars().next().unwrap()`, the replacement-helper
+   `panic!`): never on a parser-image tree - every comparison has a guard, every bound variable a
+   non-empty name - under any strategy and any fuel; the invariant is preserved by all fifteen
+   rewrites (Properties/C07full.v) *)
+Theorem C16_classic_portfolio_no_panic :
+  forall (fuel : nat) (s : strategy) (F : formula), parser_image F ->
+    run_strategy_opt fuel portfolio_classic_opt s F <> RPanic.
+Proof. exact classic_no_panic. Qed.
+Print Assumptions C16_classic_portfolio_no_panic.
 
 (* witnesses of the known classes (replayed on the real binary by bin/check C16), the regression case
    of the repaired F3b, and boundary cases *)
